@@ -148,11 +148,13 @@ def run(ctx):
         scs = [json.load(open(ctx.replay))["replay"]["scenario"]]
         scs[0]["id"] = 1
     else:
-        if not thorough:
-            # (histories on a file whose name is >= 65536 bytes are slow: every load of such a file allocates
-            #  a forged block size, see C04)
-            withlong = [t for t in tests if any(s["act"]["n"] == 3 for s in t)]
-            without = [t for t in tests if t not in withlong]
+        # (histories on a file whose name is >= 65536 bytes are slow: every load of such a file allocates
+        #  a forged block size, see C04 - so only a sample of the transitions that involve the over-long name)
+        withlong = [t for t in tests if any(s["act"]["n"] == 3 for s in t)]
+        without = [t for t in tests if t not in withlong]
+        if thorough:
+            tests = without + rng.sample(withlong, min(len(withlong), 16))
+        else:
             tests = rng.sample(without, min(len(without), 30)) + rng.sample(withlong, min(len(withlong), 4))
         for t in tests:
             two = rng.sample(NAME_POOL, 2)
@@ -162,7 +164,7 @@ def run(ctx):
             used = {s["n"] for s in steps}
             scs.append(dict(id=len(scs) + 1, names={str(k): v for k, v in names.items() if k in used}, steps=steps,
                             seed=rng.randint(1, 2 ** 31), noise=rng.random() < 0.3, kind="edge"))
-        for _ in range(120 if thorough else 16):
+        for _ in range(70 if thorough else 16):
             names, steps = random_scenario(rng, rng.randint(6, 18))
             scs.append(dict(id=len(scs) + 1, names={str(k): v for k, v in names.items()}, steps=steps,
                             seed=rng.randint(1, 2 ** 31), noise=rng.random() < 0.5, kind="random"))
